@@ -31,7 +31,34 @@ def is_wl_local(fn, t):
     """local tables of the constructor, before they are moved into the struct"""
     t = strip(t)
     return isinstance(t, tuple) and len(t) == 2 and t[0] in ("mutref", "ref", "local") and isinstance(t[1], int) \
-        and (fn.local_name(t[1]) or "").startswith("watch_list_")
+        and t[1] in table_locals(fn)
+
+
+_TL = {}
+
+
+def table_locals(fn):
+    """locals that become the watch_list fields of the UnitPropagate value the function builds (whatever they are called)"""
+    if id(fn) in _TL:
+        return _TL[id(fn)]
+    res = set()
+    for a in fn.terms.aggs:
+        t = a[1]
+        if isinstance(t, tuple) and t[0] == "agg" and str(t[2]).endswith("UnitPropagate") and len(t[4]) >= 2:
+            names = t[5] if len(t) > 5 and t[5] else ()
+            for i, op in enumerate(t[4]):
+                fld = names[i] if i < len(names) else ""
+                if names and not str(fld).startswith("watch_list"):
+                    continue
+                op = strip(op)
+                if op[0] == "mu":
+                    res.add(op[2])
+                elif op[0] in ("local",) and isinstance(op[1], int):
+                    res.add(op[1])
+            if not names:
+                pass
+    _TL[id(fn)] = res
+    return res
 
 
 def wl_row(t, fn=None):
@@ -51,8 +78,7 @@ def space(fn, t, depth=0):
     if t[0] == "call" and t[1].name in ("index", "index_mut") and len(t[2]) == 2 and wl_row(t[2][0]):
         return "Clause"
     if t[0] == "mu":
-        nm = fn.local_name(t[2]) or ""
-        if nm == "watcher_idx":
+        if t[2] in cursor_locals(fn):
             return "Pos"
         return None
     if t[0] == "bin" and t[1] in ("Add", "AddWithOverflow", "Sub", "SubWithOverflow"):
@@ -70,6 +96,26 @@ def space(fn, t, depth=0):
     if t[0] == "const":
         return "Const"
     return None
+
+
+_CUR = {}
+
+
+def cursor_locals(fn):
+    """loop-carried locals compared with the length of a watch-list row in a loop guard: the cursor(s) over that row"""
+    if id(fn) in _CUR:
+        return _CUR[id(fn)]
+    res = set()
+    te = fn.terms
+    for b, (c, _) in te.switch_term.items():
+        c = strip(c)
+        if c[0] == "bin" and c[1] in ("Ge", "Lt", "Gt", "Le"):
+            sides = [strip(c[2]), strip(c[3])]
+            for a, o in ((sides[0], sides[1]), (sides[1], sides[0])):
+                if a[0] == "mu" and mir.is_call(o, "len") and wl_row(o[2][0], fn):
+                    res.add(a[2])
+    _CUR[id(fn)] = res
+    return res
 
 
 def run(prog):
